@@ -244,6 +244,30 @@ def rule_attrmap(ctx: Ctx) -> RuleResult:
     return rr
 
 
+def rule_palette_depth_index(ctx: Ctx) -> RuleResult:
+    """A palette entry holds one AttrSpec per colour depth (16, 1, 88, 256, 2**24).  Code that turns an attribute
+    name into the spec *to be shown* must pick the element for the active depth (through the depth->position map or
+    the per-depth cache _pal_attrspec); a constant index picks one depth whatever the terminal runs at."""
+    p = ctx.p
+    rr = RuleResult("TAB", "C17.13", "no display code indexes a palette entry with a constant position", floor=1)
+    n = 0
+    for fi in p.functions.values():
+        if not fi.module.name.startswith("urwid.display"):
+            continue
+        for x in fi.own_nodes():
+            if isinstance(x, ast.Subscript) and isinstance(x.value, (ast.Subscript, ast.Call)) and "_palette" in ast.unparse(x.value) and "_pal_" not in ast.unparse(x.value):
+                inner = x.value
+                is_entry = (isinstance(inner, ast.Subscript) and ast.unparse(inner.value).endswith("._palette")) or (isinstance(inner, ast.Call) and isinstance(inner.func, ast.Attribute) and inner.func.attr == "get" and ast.unparse(inner.func.value).endswith("._palette"))
+                if not is_entry:
+                    continue
+                n += 1
+                rr.inst(f"{short(fi)}:{norm(x, 50)}", True, {"site": f"{short(fi)}: {norm(x, 70)}"})
+                if isinstance(x.slice, ast.Constant) or (isinstance(x.slice, ast.UnaryOp) and isinstance(x.slice.operand, ast.Constant)):
+                    rr.add(finding("TAB", fi, x, f"`{norm(x, 70)}` takes position {ast.unparse(x.slice)} of the palette entry whatever the colour depth: at any other depth the spec consulted is not the one that is drawn (an entry that is standout only in monochrome is treated as plain, so its trailing blanks are erased without the attribute)", construct=f"palette entry indexed with constant {ast.unparse(x.slice)}"))
+    rr.inst("scan", True, {"palette_entry_subscripts": n})
+    return rr
+
+
 def run(ctx: Ctx):
     r6 = c02.rule_cut_attr(ctx)
     r6.clause = "C17.6"
@@ -264,13 +288,14 @@ def run(ctx: Ctx):
     from ..rules import pairlen
 
     r12 = pairlen.run_pairlen(ctx.p, "C17.12", ["urwid.canvas.apply_text_layout", "urwid.util.apply_target_encoding"], floor=8)
-    return [rule_palette_order(ctx), rule_palette_notify(ctx), rule_palette_cache(ctx), rule_palette_total(ctx), rule_attrmap(ctx), r6, r7, r8, r9, r10, r11, r12]
+    return [rule_palette_order(ctx), rule_palette_notify(ctx), rule_palette_cache(ctx), rule_palette_total(ctx), rule_attrmap(ctx), r6, r7, r8, r9, r10, r11, r12, rule_palette_depth_index(ctx)]
 
 
 _CM = "urwid/display/common.py"
 _RW = "urwid/display/_raw_display_base.py"
 _HT = "urwid/display/html_fragment.py"
 MUTANTS = [
+    Mut("erase-guard-consults-basic-spec", _RW, "urwid.display._raw_display_base.Screen.draw_screen", "            a = self._pal_attrspec.get(a, a)", "            a = self._palette.get(a, (a,))[0]", "TAB|display._raw_display_base.Screen.draw_screen"),
     Mut("ellipsis-attr-run-in-columns", "urwid/canvas.py", "apply_text_layout", "attrrange(s.offs, s.offs, len(tseg))", "attrrange(s.offs, s.offs, s.sc)", "PAIRLEN|canvas.apply_text_layout"),
     Mut("palette-256-built-for-88", _CM, "BaseScreen.register_palette_entry", "high_256 = AttrSpec(foreground_high, background_high, 256)", "high_256 = AttrSpec(foreground_high, background_high, 88)", "TAB|"),
     Mut("palette-store-order-swapped", _CM, "BaseScreen.register_palette_entry", "self._palette[name] = (basic, mono_spec, high_88, high_256, high_true)", "self._palette[name] = (basic, mono_spec, high_256, high_88, high_true)", "TAB|"),
